@@ -376,6 +376,31 @@ func TestVerifC20Proxy(t *testing.T) {
 		return
 	}
 	nhex := c20pHex(spec)
+	// concurrent calls return the rendering of their own argument (UuidConc.tla)
+	{
+		var wg sync.WaitGroup
+		var bad int64
+		for w := 0; w < 16; w++ {
+			wg.Add(1)
+			go func(w int) {
+				defer wg.Done()
+				buf := make([]byte, 0, 16)
+				for i := 0; i < 20000; i++ {
+					n := uint16(w*4096 + i%4096)
+					if got, want := uint16base16(n), fmt.Sprintf("0x%04x", n); got != want && atomic.AddInt64(&bad, 1) <= 3 {
+						verifx.Fail(c20pCase{Kind: "hex", V: int64(n)}, map[string]any{"sub": "proxy", "clause": "concurrent-call", "fn": "uint16base16"},
+							"uint16base16(%d) called from 16 goroutines at once returned %q, fmt renders %q", n, got, want)
+					}
+					v := int32(w)<<27 ^ int32(i*7919)
+					if got := i32toa(v); got != string(strconv.AppendInt(buf[:0], int64(v), 10)) && atomic.AddInt64(&bad, 1) <= 3 {
+						verifx.Fail(c20pCase{Kind: "i32toa", V: int64(v)}, map[string]any{"sub": "proxy", "clause": "concurrent-call", "fn": "i32toa"},
+							"i32toa(%d) called from 16 goroutines at once returned %q", v, got)
+					}
+				}
+			}(w)
+		}
+		wg.Wait()
+	}
 	ni32 := c20pI32(verifx.Thorough(), verifx.EnvInt("VERIF_C20_I32", 1000000))
 	ne2e := 0
 	r := rand.New(rand.NewSource(verifx.Seed()))
